@@ -223,14 +223,26 @@ Proof.
     { reflexivity. }
     destruct (m_bus_result L F m ls' _ into) as [x m']. destruct (s_bus_result L F leqb s (s_derive s ls') into) as [y s'].
     cbn [fst snd] in *. auto 10.
-  - (* OSortValues: only without max_persist *)
+  - (* OSortValues: only when max_persist is absent or can hold the whole Bus *)
     cbn [BusSpec.s_dom_op] in Dom.
-    assert (Emp : mb_mp L F m = None) by (rewrite (R_mp _ _ _ _ _ _ R); destruct (sb_mp L s); [discriminate | reflexivity]).
     pose proof (values_sim L F leqb leqb_spec st m s R Sok Mok) as H.
-    destruct (m_values L F leqb st m) as [[[e vs] m1] lg]. destruct (s_all L F leqb st s) as [ok s1].
+    destruct (m_values L F leqb st m) as [[[e vs] m1] lg]. destruct (s_all L F leqb st s) as [ok s1] eqn:Eall.
     destruct H as (H1 & H2 & R1 & El1 & Emp1 & H6). subst e.
     destruct ok; cbn [negb]; [|auto 10].
-    specialize (H2 eq_refl). specialize (H6 Emp eq_refl).
+    specialize (H2 eq_refl).
+    assert (H6' : vs = mb_slots L F m1).
+    { destruct (sb_mp L s) as [k|] eqn:Esmp.
+      - (* every label is held afterwards, so the array handed to the sort is the Series the Bus holds *)
+        rewrite H2, <- El1. symmetry. apply (rel_all_loaded L F leqb leqb_spec st m1 s1 R1).
+        unfold s_all in Eall. rewrite Esmp in Eall.
+        destruct (s_access_all L leqb (s_coherent st) (Some k) (sb_cache L s) (sb_labels L s)) as [ok' c'] eqn:Ea.
+        injection Eall as -> <-. cbn [sb_cache s_with_cache].
+        destruct (rel_sbus_ok L F leqb leqb_spec st m s R) as (Nls & (Ncs & _) & Incs).
+        intros l Il. rewrite El1, El in Il.
+        apply (access_all_small_In L leqb leqb_spec (s_coherent st) k (sb_labels L s) (sb_labels L s) Nls (incl_refl _)
+                 ltac:(apply Z.leb_le, Dom) (sb_cache L s) c' Ncs Incs Ea). left. exact Il.
+      - apply H6; [rewrite (R_mp _ _ _ _ _ _ R); exact Esmp | reflexivity]. }
+    clear H6. rename H6' into H6.
     rewrite <- El.
     set (labels := mb_labels L F m) in *.
     set (kvM := map (fun x : L * option F => (x, match snd x with Some f => fkey f | None => 0 end)) (combine labels vs)).
@@ -272,7 +284,7 @@ Proof.
       rewrite E1, E2.
       destruct (m_bus_result L F m1 ls' _ into) as [x m']. unfold s_bus_result in *. cbn [fst snd] in *.
       split; [exact B1|]. split; [reflexivity|]. split; [exact B2|]. split; [exact Sok|]. split; [congruence | reflexivity].
-    + (* as found: the sorted Series of Frames; without max_persist it holds the same slots *)
+    + (* as found: the sorted Series of Frames; when nothing had to be evicted it holds the same slots *)
       rewrite (map_snd_of_Forall _ _ Fs), Efst.
       destruct (m_bus_result L F m1 ls' _ into) as [x m']. unfold s_bus_result in *. cbn [fst snd] in *.
       split; [exact B1|]. split; [reflexivity|]. split; [exact B2|]. split; [exact Sok|]. split; [congruence | reflexivity].
